@@ -103,11 +103,17 @@ func main() {
 		})
 	}
 
-	// ---- 4. random larger groups and chains
+	// ---- 4. random larger groups and chains (thorough: a fixed extra budget after the exhaustive grid)
+	if thorough {
+		n = calls + n/3
+	}
 	for calls < n {
 		maxM, maxT, maxP := 8, 5, 12
 		if rnd.Chance(1, 10) {
 			maxM, maxT, maxP = 24, 10, 30
+		}
+		if thorough && rnd.Chance(1, 200) {
+			maxM, maxT, maxP = 60, 20, 60
 		}
 		g, pat := randGroup(rnd, maxM, maxT, maxP)
 		run.Count("pattern-" + pat)
